@@ -1,1 +1,63 @@
-def main : IO Unit := IO.println "psdriver"
+import Driver.Util
+import PsVerif.Model.Cipher
+import PsVerif.Model.T1Encode
+/-!
+`psdriver`: reads one case per line from stdin, prints the model's canonical result
+line for each.  A line the driver cannot parse gives `bad-op` (never a default).
+-/
+open Driver
+open PsVerif.Model
+
+def parseCmd (s : String) : Option T1Encode.Cmd :=
+  match s.splitOn ":" with
+  | ["m", x, y] => do pure (.moveTo (← parseRat x) (← parseRat y))
+  | ["l", x, y] => do pure (.lineTo (← parseRat x) (← parseRat y))
+  | ["c", a, b, c, d, e, f] => do
+    pure (.curveTo (← parseRat a) (← parseRat b) (← parseRat c) (← parseRat d) (← parseRat e) (← parseRat f))
+  | ["z"] => some .closePath
+  | _ => none
+
+def toU8 (bs : List Nat) : List UInt8 := bs.map (fun b => UInt8.ofNat b)
+def ofU8 (bs : List UInt8) : List Nat := bs.map (fun b => b.toNat)
+
+def handle (line : String) : String :=
+  match line.splitOn " " with
+  | ["enc", wx, wy, hs, vs, cmds] =>
+    match parseInt wx, parseInt wy, mapM? parseInt (splitList hs ","), mapM? parseInt (splitList vs ","),
+          mapM? parseCmd (splitList cmds ";") with
+    | some wx, some wy, some hs, some vs, some cs =>
+      hexOfBytes (T1Encode.encodeCharString { cmds := cs, hstem := hs, vstem := vs } wx wy)
+    | _, _, _, _, _ => "bad-op"
+  | ["encf", _, _, _, _, _] => "skip"   -- oracle-only case (float arithmetic not exact)
+  | ["num", x] =>
+    match parseRat x with
+    | some r => let a := T1Encode.appendNumber r; hexOfBytes a.1 ++ " " ++ ratStr a.2
+    | none => "bad-op"
+  | ["eexecdec", r, h] =>
+    match r.toNat?, bytesOfHex h with
+    | some r, some bs => hexOfBytes (ofU8 (Cipher.decrypt (UInt16.ofNat r) (toU8 bs)))
+    | _, _ => "bad-op"
+  | ["eexecenc", r, h] =>
+    match r.toNat?, bytesOfHex h with
+    | some r, some bs => hexOfBytes (ofU8 (Cipher.encrypt (UInt16.ofNat r) (toU8 bs)))
+    | _, _ => "bad-op"
+  | ["deobf", n, h] =>
+    match parseInt n, bytesOfHex h with
+    | some n, some bs =>
+      match Cipher.deobfuscate (toU8 bs) n with
+      | some p => "some " ++ hexOfBytes (ofU8 p)
+      | none => "nil"
+    | _, _ => "bad-op"
+  | _ => "bad-op"
+
+partial def loop (h : IO.FS.Stream) (out : IO.FS.Stream) : IO Unit := do
+  let line ← h.getLine
+  if line.isEmpty then return ()
+  let l := if line.endsWith "\n" then (line.dropEnd 1).toString else line
+  out.putStrLn (handle l)
+  loop h out
+
+def main : IO Unit := do
+  let stdin ← IO.getStdin
+  let stdout ← IO.getStdout
+  loop stdin stdout
